@@ -477,6 +477,7 @@ func runC17(c *Check) {
 		c.MinInstances("C17-R8", 1)
 	}
 	ruleHandOffNotifies(c, p, nf, "C17-R9")
+	ruleIntervalsDefaulted(c, p, "C17-R10")
 	c.MinInstances("C17-R2", 4)
 	c.MinInstances("C17-R3", 3)
 	c.MinInstances("C17-R4", 2)
@@ -606,5 +607,67 @@ func ruleHandOffNotifies(c *Check, p *Prog, notifier *ssa.Function, rule string)
 	}
 	if n == 0 {
 		c.Unk(rule, "anchor-count", "", "", "anchor lost: no function of the block package hands transactions to the sequencing layer")
+	}
+}
+
+// ruleIntervalsDefaulted (C17-R10): the loops arm their timers with the configured block interval
+// and idle interval. An interval of zero (left out of the file, a configuration built in code)
+// makes a timer fire at once, over and over: blocks far faster than one per block interval, or an
+// "idle" block every millisecond. The constructor therefore replaces a zero interval by its
+// default — each of the two fields by a store into that very field under the test that it is zero.
+func ruleIntervalsDefaulted(c *Check, p *Prog, rule string) {
+	c.Doc(rule, "GA+VP: the manager's constructor replaces a zero block interval and a zero idle interval by a positive default, each by a store into the same configuration field it tested for zero (a default written into the wrong field leaves the other interval at zero: the loop then produces a block every millisecond).")
+	nm := p.Func(rootPath + "/block.NewManager")
+	if nm == nil {
+		c.Unk(rule, "NewManager", "", "", "anchor lost: the manager's constructor")
+		return
+	}
+	g := BuildECFG(p, nm, ownPkgOpts(rootPath+"/block", 2))
+	c.NoteGraph(g)
+	for _, f := range []string{"BlockTime", "LazyBlockInterval"} {
+		suffix := ".Node." + f + ".Duration"
+		inst := "NewManager ⟂ zero " + f + " is replaced by its default"
+		var stores []*Node
+		for _, nd := range g.Nodes {
+			st, ok := nd.In.(*ssa.Store)
+			if !ok || nd.Kind != NInstr || !g.Live()[nd] {
+				continue
+			}
+			if strings.HasSuffix(TermOf(st.Addr, nd.Ctx).String(), suffix) {
+				stores = append(stores, nd)
+			}
+		}
+		if len(stores) == 0 {
+			c.Bad(rule, inst, fnName(nm), p.Pos(nm.Pos()), "the constructor never writes a default into Node."+f+": a configuration that leaves it zero arms the loop's timer with 0 — it fires at once, every time", nil)
+			continue
+		}
+		ok := false
+		for _, sn := range stores {
+			st := sn.In.(*ssa.Store)
+			v := TermOf(st.Val, sn.Ctx).unconv()
+			positive := false
+			if v.Op == "const" {
+				var k int64
+				if _, err := fmt.Sscan(v.Name, &k); err == nil && k > 0 {
+					positive = true
+				}
+			}
+			tested := false
+			ss := sn
+			for _, fct := range g.NecessaryEdges(func(x *Node) bool { return x == ss }) {
+				a, op, b, okc := canonCmp(fct.Cond, fct.Pol)
+				if okc && op == "==" && ((strings.HasSuffix(a.String(), suffix) && b.unconv().Name == "0") || (strings.HasSuffix(b.String(), suffix) && a.unconv().Name == "0")) {
+					tested = true
+				}
+			}
+			if positive && tested {
+				ok = true
+			}
+		}
+		if ok {
+			c.OK(rule, inst, fnName(nm), p.InstrPos(stores[0].In), "a positive default is stored into the field under the test that it is zero", true)
+		} else {
+			c.Bad(rule, inst, fnName(nm), p.InstrPos(stores[0].In), "Node."+f+" is not given a positive default under the test that it itself is zero", nil)
+		}
 	}
 }
